@@ -3,7 +3,7 @@
     panic (Proofs/XeTotal.v), the file layer never panics (slice tot, Proofs/TotSafeProg.v). *)
 From Coq Require Import List Bool NArith ZArith.
 From E57 Require Import Base.Prelude Model.Device Model.PagedReader Model.FileBin Model.ReaderOpen
-  Model.Meta Model.MetaFile Model.XmlTree Model.XmlParse Model.XmlExtract Model.ReaderFull
+  Model.Meta Model.MetaFile Model.XmlTree Model.XmlParse Model.XmlDepth Model.XmlExtract Model.ReaderFull
   Proofs.XeTotal Proofs.TotSafeProg Proofs.C04Compose.
 Import ListNotations.
 
@@ -66,19 +66,34 @@ Qed.
 
 Lemma xml_meta_no_panic xml : xml_meta pf64 pf32 fdiv xml <> Panic.
 Proof.
-  unfold xml_meta, xml_read.
-  destruct (negb _); [discriminate|].
+  unfold xml_meta.
+  destruct (negb (forallb _ xml && utf8_valid xml)); [discriminate|].
+  destruct (negb (xml_depth_ok xml)); [discriminate|].
   destruct (xml_parse xml) as [d| |] eqn:E; try discriminate.
   apply extract_all_no_panic_proof. eapply xml_parse_root. exact E.
 Qed.
 
-(** [xml_meta] is [read_meta] behind the UTF-8 check *)
+(** [xml_meta] is [read_meta] behind the UTF-8 check and the depth check *)
 Lemma xml_meta_read_meta xml :
   xml_meta pf64 pf32 fdiv xml =
-  if negb (forallb (fun b => b <? 256) xml && utf8_valid xml) then Err ERead else read_meta pf64 pf32 fdiv xml.
+  if negb (forallb (fun b => b <? 256) xml && utf8_valid xml) then Err ERead
+  else if negb (xml_depth_ok xml) then Err EInvalid else read_meta pf64 pf32 fdiv xml.
 Proof.
-  unfold xml_meta, xml_read, read_meta. destruct (negb _); [reflexivity|].
+  unfold xml_meta, read_meta. destruct (negb (forallb _ xml && utf8_valid xml)); [reflexivity|].
+  destruct (negb (xml_depth_ok xml)); [reflexivity|].
   destruct (xml_parse xml); reflexivity.
+Qed.
+
+(** what an accepted XML section satisfies (for the proofs of other slices) *)
+Lemma xml_meta_ok_inv xml m :
+  xml_meta pf64 pf32 fdiv xml = Ok m ->
+  (forallb (fun b => b <? 256) xml && utf8_valid xml) = true /\ xml_depth_ok xml = true /\
+  exists d, xml_parse xml = ParseOk d /\ extract_all pf64 pf32 fdiv d = Ok m.
+Proof.
+  unfold xml_meta. intros H.
+  destruct (forallb _ xml && utf8_valid xml); cbn [negb] in H; [|discriminate H].
+  destruct (xml_depth_ok xml); cbn [negb] in H; [|discriminate H].
+  destruct (xml_parse xml) as [d| |]; try discriminate H. repeat split. exists d. split; [reflexivity|exact H].
 Qed.
 
 Theorem reader_new_no_panic_proof (d : dev) : snd (reader_new pf64 pf32 fdiv d) <> Panic.
